@@ -71,6 +71,15 @@ MUT_OPS = [["noop", "B"], ["not"], ["divmod"], ["mktup", ["B", "I"]], ["untup", 
            ["const", ["true"]], ["const", ["int", 5, 7]], ["const", ["tuple", [["true"], ["false"]]]]]
 
 
+def usable_seed(seed, root=None):
+    """the generator of harness/progs.py occasionally emits a program its interpreter cannot run (a
+    polymorphic function without a body); such seeds and HUGRs above the sampling bound are re-drawn"""
+    try:
+        return len(progs.run(progs.gen_program(random.Random(seed), root)).hugr) <= MAX_NODES
+    except (TypeError, AssertionError, KeyError, IndexError):
+        return False
+
+
 def mk_mut_op(spec):
     from hugr import ops
     if spec[0] == "const":
@@ -327,8 +336,16 @@ class SchemaServer:
         if first != "READY":
             raise RuntimeError("schema server did not start: " + first)
         self.n = 0
+        self.samples = None if plain else []
 
     def check(self, defname, text):
+        ans = self._check(defname, text)
+        # keep a sample of (definition, text, verdict) for the thorough tier's cross-check with the plain validator
+        if self.samples is not None and len(text) < 150000 and (self.n % 7 == 1 or ans != "OK") and len(self.samples) < 30:
+            self.samples.append((defname, text, ans))
+        return ans
+
+    def _check(self, defname, text):
         self.n += 1
         path = os.path.join(self.work, "doc_%d_%d.json" % (os.getpid(), self.n % 8))
         with open(path, "w") as f:
@@ -378,9 +395,8 @@ def std_extensions():
 
 
 def custom_extension(h=None):
-    """h: a lowering HUGR for the operation.  Not used by the generated cases: ext.FixedHugr._to_serial passes
-    the API-level Hugr object into an untyped field (internal dataclass dump or PydanticSerializationError);
-    that is extension round-trip territory (C10) and was reported there."""
+    """an extension with type definitions, a polymorphic-free operation with misc data and, when h is given,
+    a lowering of that operation to the HUGR h (ext.FixedHugr)"""
     from hugr import ext, tys
     import semver
     e = ext.Extension("verif.ext", semver.Version(0, 1, 2), runtime_reqs={"prelude", "logic"})
@@ -392,6 +408,23 @@ def custom_extension(h=None):
     e.add_op_def(od)
     e.add_op_def(ext.OpDef("bin.op", ext.OpDefSig(None, binary=True)))
     return e
+
+
+def lowerings_ok(ext_doc, h, ctx):
+    """every lowering HUGR inside an extension document is the wire-format document of h (schema-valid)"""
+    own = doc_view(json.loads(h.to_json()))
+    n = 0
+    for od in ext_doc.get("operations", {}).values():
+        for lf in od.get("lower_funcs", []):
+            n += 1
+            d = lf.get("hugr")
+            if not isinstance(d, dict) or "nodes" not in d or "edges" not in d:
+                return False
+            if schema_server(ctx).check("SerialHugr", json.dumps(d)) != "OK":
+                return False
+            if doc_view(d) != own or d.get("version") != "live":
+                return False
+    return n == 1
 
 
 def opcode(o: dict):
@@ -604,6 +637,10 @@ class RT(fw.Prop):
             P("empty_module"),
             {"kind": "pkg", "progs": ["poly_func", "two_consts"], "ext": True},
             {"kind": "ext", "which": "custom"},
+            # a lowering HUGR inside an extension must be a wire-format document (FixedHugr, fixed c8729f5);
+            # with an extension operation inside, serialization used to raise PydanticSerializationError
+            {"kind": "ext", "which": "custom_hugr", "prog": "custom_desc"},
+            {"kind": "ext", "which": "custom_hugr", "prog": "order"},
         ]
 
     def generate(self, rng, tier, ctx):
@@ -613,16 +650,21 @@ class RT(fw.Prop):
             r = rng.random()
             seed = rng.randrange(1 << 30)
             if r < 0.08:
-                cases.append({"kind": "pkg", "seeds": [rng.randrange(1 << 30) for _ in range(rng.randint(0, 3))],
+                seeds = [rng.randrange(1 << 30) for _ in range(rng.randint(0, 3))]
+                cases.append({"kind": "pkg", "seeds": [x for x in seeds if usable_seed(x, "module")],
                               "ext": rng.random() < 0.5})
             elif r < 0.12:
-                cases.append({"kind": "ext", "which": rng.choice(["custom"] + sorted(std_extensions()))})
+                es = rng.randrange(1 << 30)
+                while not usable_seed(es):
+                    es = rng.randrange(1 << 30)
+                cases.append({"kind": "ext", "which": rng.choice(["custom", "custom_hugr", "custom_hugr"] + sorted(std_extensions())),
+                              "seed": es})
             else:
                 nm = 0 if r < 0.3 else rng.randint(1, 12)
                 reuse = r > 0.8          # allow re-adding after deletion (index reuse: the known D3 corner)
                 off = 0.72 < r <= 0.8    # edge stream: links on ports the operations do not have
                 # sampling bound: HUGRs of at most MAX_NODES nodes (larger programs are re-drawn)
-                while len(progs.run(progs.gen_program(random.Random(seed))).hugr) > MAX_NODES:
+                while not usable_seed(seed):
                     seed = rng.randrange(1 << 30)
                 cases.append({"kind": "hugr", "seed": seed, "nmuts": nm, "mseed": rng.randrange(1 << 30),
                               "reuse": reuse, "off_port": off})
@@ -653,7 +695,7 @@ class RT(fw.Prop):
         if k == "pkg":
             hs = [named_program(p) for p in case.get("progs", [])]
             hs += [progs.run(progs.gen_program(random.Random(s), "module")).hugr for s in case.get("seeds", [])]
-            exts = [custom_extension()] if case.get("ext") else []
+            exts = [custom_extension(hs[0] if hs else None)] if case.get("ext") else []
             import warnings
             with warnings.catch_warnings():
                 warnings.simplefilter("ignore")
@@ -675,21 +717,27 @@ class RT(fw.Prop):
                 own = o.get("doc")
                 same = same and own == doc_view(md) and md.get("version") == "live"
                 mods.append(o)
+            if exts and hs:
+                same = same and len(doc.get("extensions", [])) == 1 and lowerings_ok(doc["extensions"][0], hs[0], ctx)
             return {"mods": mods, "same": bool(same), "schema": schema_server(ctx).check("Package", j),
                     "n_ext": len(exts)}
         if k == "ext":
             w = case["which"]
+            h = None
             if w == "custom":
                 e = custom_extension()
             elif w == "custom_hugr":
-                e = custom_extension(named_program("poly_func"))
+                h = (progs.run(progs.gen_program(random.Random(case["seed"]))).hugr if "seed" in case
+                     else named_program(case.get("prog", "custom_desc")))
+                e = custom_extension(h)
             else:
                 e = std_extensions()[w]
             try:
                 j = e.to_json()
             except Exception as ex:
                 return {"ext_error": type(ex).__name__}
-            return {"schema": schema_server(ctx).check("Extension", j), "ext": w}
+            ok = True if h is None else lowerings_ok(json.loads(j), h, ctx)
+            return {"schema": schema_server(ctx).check("Extension", j), "ext": w, "lowering_ok": ok}
         raise ValueError(case)
 
     def literal(self, case, obs, ctx):
@@ -707,7 +755,7 @@ class RT(fw.Prop):
             return "(CPkg %s %s %s)" % (glist(L.rt(o) for o in obs["mods"]), gbool(obs["same"]), gbool(obs["schema"] == "OK"))
         if "ext_error" in obs:
             return "(CExt false false)"
-        return "(CExt true %s)" % gbool(obs["schema"] == "OK")
+        return "(CExt %s %s)" % (gbool(obs.get("lowering_ok", True)), gbool(obs["schema"] == "OK"))
 
     # -- classification
     def nontrivial(self, case, obs):
@@ -720,7 +768,7 @@ class RT(fw.Prop):
 
     def describe(self, case, obs):
         small = {k: obs.get(k) for k in ("skip", "doc_error", "load_error", "doc2_error", "json_same", "pyd", "schema",
-                                         "muts", "header", "same", "pkg_error", "ext_error") if k in obs}
+                                         "muts", "header", "same", "pkg_error", "ext_error", "lowering_ok", "ext") if k in obs}
         if "a" in obs:
             small["nodes"] = len(obs["a"]["nodes"])
             small["links"] = len(obs["a"]["links"])
@@ -738,6 +786,8 @@ class RT(fw.Prop):
 
     def signature(self, case, obs, ctx):
         if case["kind"] != "hugr":
+            if "ext_error" in obs or "pkg_error" in obs:
+                return "%s:serialization-raises:%s" % (case["kind"], obs.get("ext_error", obs.get("pkg_error")))
             return "%s:%s" % (case["kind"], "schema" if obs.get("schema", "OK") != "OK" else "document")
         if "a" not in obs:
             return "unclassified"
@@ -888,6 +938,19 @@ class RT(fw.Prop):
     def extra(self, ctx, tier):
         out = []
         s = ctx.__dict__.get("schema_server")
+        if s is not None and tier == "thorough" and s.samples:
+            # the discriminator short-cut of the schema server must agree with the plain jsonschema validator
+            plain = schema_server(ctx, plain=True)
+            bad = []
+            for defname, text, ans in s.samples:
+                ans2 = plain._check(defname, text)
+                if (ans == "OK") != (ans2 == "OK"):
+                    bad.append({"definition": defname, "fast": ans, "plain": ans2, "document": text[:2000]})
+            ctx.stats["schema_crosscheck_plain_validator"] = {"documents": len(s.samples), "disagreements": len(bad)}
+            plain.close()
+            if bad:
+                out.append(("schema-validator-disagreement", "discriminator short-cut and plain jsonschema disagree",
+                            {"cases": bad[:3]}))
         if s is not None:
             s.close()
         return out
